@@ -31,6 +31,9 @@ VERIF = os.path.dirname(os.path.dirname(os.path.abspath(__file__)))
 REPO = os.environ.get("VERIF_REPO", "/repo")
 COQ = os.path.join(VERIF, "coq")
 BUILD = os.path.join(VERIF, "build")
+# VERIF_REPO=<scratch worktree> runs a check against a mutated copy of the repository
+# (used for mutation sanity tests); scratch state is then kept apart from the real runs.
+RUNTAG = "" if os.path.realpath(REPO) == "/repo" else "_" + hashlib.sha1(os.path.realpath(REPO).encode()).hexdigest()[:8]
 QFLAGS = ["-Q", "lib", "VLib", "-Q", "model", "VModel", "-Q", "proof", "VProof", "-Q", "props", "VProps"]
 
 # Axioms that may appear under Print Assumptions: only ones declared by the
@@ -99,10 +102,10 @@ def strip_coq_comments(s):
     return "".join(out)
 
 
-def lint_coq():
+def lint_coq(rels=None):
     """No Admitted/admit/Axiom/Parameter/... anywhere, no Variable/Hypothesis outside a Section."""
     bad = []
-    for rel in coq_sources():
+    for rel in (rels if rels is not None else coq_sources()):
         src = strip_coq_comments(open(os.path.join(COQ, rel)).read())
         for m in FORBIDDEN.finditer(src):
             bad.append("%s: forbidden token %r" % (rel, m.group(0)))
@@ -118,25 +121,83 @@ def lint_coq():
     return bad
 
 
-def ensure_coq_built():
+ROOTS = {"VLib": "lib", "VModel": "model", "VProof": "proof", "VProps": "props"}
+REQ_RE = re.compile(r"From\s+(VLib|VModel|VProof|VProps)\s+Require\s+(?:Import\s+|Export\s+)?([\w\s]+?)\.(?:\s|$)")
+
+
+def direct_deps(rel):
+    src = strip_coq_comments(open(os.path.join(COQ, rel)).read())
+    deps = []
+    for m in REQ_RE.finditer(src):
+        for name in m.group(2).split():
+            deps.append("%s/%s.v" % (ROOTS[m.group(1)], name))
+    return deps
+
+
+def closure(rels):
+    order, seen = [], set()
+
+    def visit(r):
+        if r in seen:
+            return
+        seen.add(r)
+        if not os.path.exists(os.path.join(COQ, r)):
+            raise RuntimeError("missing Coq source " + r)
+        for d in direct_deps(r):
+            visit(d)
+        order.append(r)
+    for r in rels:
+        visit(r)
+    return order
+
+
+def spec_targets(spec):
+    t = ["model/%s.v" % spec["engine"], spec.get("props_file", "props/%s.v" % spec["id"])]
+    return t + spec.get("extra_coq", [])
+
+
+def ensure_coq_built(spec=None):
+    """Full .vo build (plain coqc, no -vos) of the dependency closure of the property's
+    files, in dependency order, recompiling what is stale.  With spec=None: everything,
+    through coq_makefile + make (this is what setup_cmd does)."""
     os.makedirs(BUILD, exist_ok=True)
     lock = open(os.path.join(BUILD, ".coqlock"), "w")
     fcntl.flock(lock, fcntl.LOCK_EX)
     try:
-        bad = lint_coq()
+        if spec is None:
+            bad = lint_coq()
+            if bad:
+                return False, "\n".join(bad)
+            srcs = coq_sources()
+            proj = "-Q lib VLib\n-Q model VModel\n-Q proof VProof\n-Q props VProps\n" + "\n".join(srcs) + "\n"
+            open(os.path.join(COQ, "_CoqProject"), "w").write(proj)
+            subprocess.run(["coq_makefile", "-f", "_CoqProject", "-o", "Makefile.coq"], cwd=COQ, check=True,
+                           stdout=subprocess.DEVNULL, stderr=subprocess.DEVNULL)
+            r = subprocess.run(["timeout", "5400", "make", "-f", "Makefile.coq", "-j16"], cwd=COQ,
+                               stdout=subprocess.PIPE, stderr=subprocess.STDOUT, text=True)
+            if r.returncode != 0:
+                return False, r.stdout[-4000:]
+            return True, ""
+        try:
+            order = closure(spec_targets(spec))
+        except RuntimeError as e:
+            return False, str(e)
+        bad = lint_coq(order)
         if bad:
             return False, "\n".join(bad)
-        srcs = coq_sources()
-        proj = "-Q lib VLib\n-Q model VModel\n-Q proof VProof\n-Q props VProps\n" + "\n".join(srcs) + "\n"
-        pj = os.path.join(COQ, "_CoqProject")
-        if not os.path.exists(pj) or open(pj).read() != proj or not os.path.exists(os.path.join(COQ, "Makefile.coq")):
-            open(pj, "w").write(proj)
-            subprocess.run(["coq_makefile", "-f", "_CoqProject", "-o", "Makefile.coq"], cwd=COQ, check=True,
-                           stdout=subprocess.DEVNULL)
-        r = subprocess.run(["timeout", "3000", "make", "-f", "Makefile.coq", "-j16"], cwd=COQ,
-                           stdout=subprocess.PIPE, stderr=subprocess.STDOUT, text=True)
-        if r.returncode != 0:
-            return False, r.stdout[-4000:]
+        rebuilt = set()
+        for rel in order:
+            src = os.path.join(COQ, rel)
+            vo = src[:-2] + ".vo"
+            stale = (not os.path.exists(vo)) or os.path.getmtime(vo) < os.path.getmtime(src) \
+                or any(d in rebuilt or os.path.getmtime(os.path.join(COQ, d)[:-2] + ".vo") > os.path.getmtime(vo)
+                       for d in direct_deps(rel))
+            if stale:
+                r = subprocess.run(["timeout", "1800", "coqc"] + QFLAGS + [rel], cwd=COQ,
+                                   stdout=subprocess.PIPE, stderr=subprocess.STDOUT, text=True)
+                if r.returncode != 0:
+                    return False, "coqc %s failed:\n%s" % (rel, r.stdout[-3000:])
+                rebuilt.add(rel)
         return True, ""
     finally:
         fcntl.flock(lock, fcntl.LOCK_UN)
@@ -149,7 +210,7 @@ def check_props(spec):
     src = strip_coq_comments(open(os.path.join(COQ, rel)).read())
     theorems = re.findall(r"^\s*(?:Theorem|Lemma|Corollary|Example)\s+([\w']+)", src, re.M)
     # compile to a scratch .vo so a concurrently running make is not disturbed
-    scratch = os.path.join(BUILD, "props_" + spec["id"])
+    scratch = os.path.join(BUILD, "props_" + spec["id"] + RUNTAG)
     os.makedirs(scratch, exist_ok=True)
     r = subprocess.run(["timeout", "900", "coqc"] + QFLAGS + ["-o", os.path.join(scratch, os.path.basename(rel)[:-2] + ".vo"), rel],
                        cwd=COQ, stdout=subprocess.PIPE, stderr=subprocess.PIPE, text=True)
@@ -201,9 +262,39 @@ def build_overlay(spec, workdir):
     return ov, moddir
 
 
-def ext_module_ready():
-    """The ext harness module lives in /verif/drivers/ext and `replace`s grpc to /repo."""
+def ext_module_ready(pkg=None):
+    """The ext harness module lives in /verif/drivers/ext and `replace`s grpc to /repo.
+    Each ext test package gets a generated copy of the common driver code."""
     ext = os.path.join(VERIF, "drivers", "ext")
+    if RUNTAG:
+        alt = os.path.join(BUILD, "ext" + RUNTAG)
+        subprocess.run(["rsync", "-a", "--delete", "--exclude", "go.mod", "--exclude", "go.sum", ext + "/", alt + "/"], check=True)
+        ext = alt
+    if pkg:
+        pdir = os.path.join(ext, pkg)
+        pkgname = None
+        for fn in sorted(os.listdir(pdir)):
+            if fn.endswith("_test.go") and fn != "zz_verif_common_test.go":
+                for line in open(os.path.join(pdir, fn)):
+                    m = re.match(r"^package\s+(\w+)", line)
+                    if m:
+                        pkgname = m.group(1)
+                        break
+            if pkgname:
+                break
+        tmpl = open(os.path.join(VERIF, "drivers", "common", "zz_verif_common_test.go.tmpl")).read()
+        body = tmpl.replace("package PKGNAME", "package " + pkgname)
+        cp = os.path.join(pdir, "zz_verif_common_test.go")
+        if not os.path.exists(cp) or open(cp).read() != body:
+            open(cp, "w").write(body)
+    # go.mod is generated from /repo/go.mod so that the harness resolves exactly the
+    # dependency versions the repository pins (all are in the offline module cache)
+    rm = open(os.path.join(REPO, "go.mod")).read()
+    rm = re.sub(r"(?m)^module\s+\S+", "module google.golang.org/grpc/verifharness", rm, count=1)
+    rm += "\nrequire google.golang.org/grpc v0.0.0\n\nreplace google.golang.org/grpc => %s\n" % REPO
+    gm = os.path.join(ext, "go.mod")
+    if not os.path.exists(gm) or open(gm).read() != rm:
+        open(gm, "w").write(rm)
     gosum = os.path.join(ext, "go.sum")
     src = os.path.join(REPO, "go.sum")
     if os.path.exists(src):
@@ -234,7 +325,7 @@ def run_driver(spec, workdir, tier, seed, replay=None, cases=None, out_name="cas
                "-vet=off", "-timeout", to + "s", "./" + d["pkg"]]
         cwd = moddir
     else:
-        cwd = ext_module_ready()
+        cwd = ext_module_ready(d["pkg"])
         cmd = ["go", "test", "-tags", "verif", "-run", "^%s$" % d["test"], "-count=1", "-vet=off",
                "-timeout", to + "s", "./" + d["pkg"]]
     if tier == "thorough" and d.get("race"):
@@ -408,7 +499,7 @@ def case_hash(c):
 
 
 def write_replay(pid, name, payload):
-    d = os.path.join(BUILD, "replay", pid)
+    d = os.path.join(BUILD, "replay", pid + RUNTAG)
     os.makedirs(d, exist_ok=True)
     p = os.path.join(d, name)
     json.dump(payload, open(p, "w"), indent=1)
@@ -437,11 +528,11 @@ def main():
         seed = 1
     t0 = time.time()
     spec = load_spec(pid)
-    workdir = os.path.join(BUILD, "run", pid + ("_replay" if a.replay else ""))
+    workdir = os.path.join(BUILD, "run", pid + RUNTAG + ("_replay" if a.replay else ""))
     shutil.rmtree(workdir, ignore_errors=True)
     os.makedirs(workdir, exist_ok=True)
 
-    ok, err = ensure_coq_built()
+    ok, err = ensure_coq_built(spec)
     if not ok:
         log("INFRASTRUCTURE: the Coq development does not build:\n" + err)
         return 2
@@ -618,7 +709,7 @@ def main():
         "assumptions": spec.get("assumptions", []),
         "wall_s": round(wall, 2), "violations": len(violations),
     }
-    if not a.no_evidence and not a.replay:
+    if not a.no_evidence and not a.replay and not RUNTAG:
         os.makedirs(os.path.join(VERIF, "evidence"), exist_ok=True)
         json.dump(ev, open(os.path.join(VERIF, "evidence", pid + ".json"), "w"), indent=1)
 
